@@ -1013,8 +1013,8 @@ fn record(o: &Opts) -> Res<()> {
     let cparams_len = default_cparams_bytes().len();
     let gc = GasCosts::default();
     let fee = FeeParameters::DEFAULT;
-    let n_rand: usize = o.opt("--n").and_then(|x| x.parse().ok()).unwrap_or(if thorough { 90_000 } else { 7_000 });
-    let n_factory: usize = o.opt("--factory").and_then(|x| x.parse().ok()).unwrap_or(if thorough { 6_000 } else { 600 });
+    let n_rand: usize = o.opt("--n").and_then(|x| x.parse().ok()).unwrap_or(if thorough { 150_000 } else { 7_000 });
+    let n_factory: usize = o.opt("--factory").and_then(|x| x.parse().ok()).unwrap_or(if thorough { 8_000 } else { 600 });
     let mut rng = o.rng(19);
     let mut seg = |out: &mut Out| { if out.n % 200 == 0 { out.ev(json!({"ev": "Seg"})); } };
     // ---- (a) random abstract transactions, 0..2 mutations, randomised limits and heights ----
